@@ -54,6 +54,22 @@ def cases(tier, rng, schema, feats):
             lst.append(cbor.M(e if rng.chance(2, 3) else e[::-1]))
         out.append(f"C14.rnd.{n}\tdec2\t{mc(lst).hex()}")
         n += 1
+    # every COSE algorithm identifier in the registered neighbourhood, alone and among the known ones
+    for alg in list(range(-70, 8)) + [-257, -258, -259, -65535, 256]:
+        for lst in ([entry(alg, "public-key")], [entry(alg, "public-key"), entry(-7, "public-key")],
+                    [entry(-8, "public-key"), entry(alg, "public-key"), entry(-7, "public-key")]):
+            out.append(f"C14.algid.{n}\tdec2\t{mc(lst).hex()}")
+            n += 1
+    # long lists: hundreds of unsupported entries before / between / after the supported ones (counters, early exits)
+    for count in (200, 255, 256, 257, 300):
+        for lst in ([entry(-257, "public-key")] * count, [entry(-7, "public-key")] + [entry(-257, "public-key")] * count + [entry(-8, "public-key")]):
+            out.append(f"C14.long.{n}\tdec2\t{mc(lst).hex()}")
+            n += 1
+        prefs = ["tpm"] * count
+        out.append(f"C14.long.{n}\tdec2\t{mc([entry(-7, 'public-key')], prefs).hex()}")
+        n += 1
+        out.append(f"C14.long.{n}\tdec2\t{mc([entry(-7, 'public-key')], ['packed'] + prefs + ['none']).hex()}")
+        n += 1
     fl = 4 if tier == "quick" else 5
     for L in range(fl + 1):
         for combo in itertools.product(range(len(FMTS)), repeat=L):
